@@ -145,7 +145,7 @@ def run(ctx, prop):
     nsim = 60 if quick else 600
     depth = 40
     for i, consts in enumerate([dict(MaxHeight=6, Range=2, Conc=2, FailBudget=3, CancelBudget=1, StopBudget=2),
-                                dict(MaxHeight=5, Range=3, Conc=1, FailBudget=2, CancelBudget=1, StopBudget=2)]):
+                                dict(MaxHeight=5, Range=2 if quick else 3, Conc=1, FailBudget=2, CancelBudget=1, StopBudget=2)]):
         consts = dict(consts, SimDepth=depth, MaxSteps=depth, SpawnFirst="TRUE")
         cfg = write_cfg(ctx, "sim%d" % i, consts, invariants=ALL_INV)
         simdir = os.path.join(ctx.work, "sim%d" % i)
@@ -171,7 +171,8 @@ def run(ctx, prop):
     # ---- 4. the real DASer
     sc_path = os.path.join(ctx.work, "scenarios.json")
     json.dump(scenarios, open(sc_path, "w"))
-    rep = ctx.go_driver("das", env={"VERIF_SCENARIOS": sc_path, "VERIF_RANDOM": 80 if quick else 800},
+    rep = ctx.go_driver("das", env={"VERIF_SCENARIOS": sc_path, "VERIF_RANDOM": 80 if quick else 800,
+                             "VERIF_COMBOS": "2,1;2,2;1,2" if quick else "1,1;2,1;3,1;1,2;2,2;3,2;2,3"},
                         timeout=1500 if quick else 3400, keep=lambda sig: sig.startswith(prop + "/"))
     c = rep.get("counters") or {}
     ctx.cover(evaluations=int(c.get("stimuli", 0)), distinct_nontrivial=int(c.get("scenarios", 0)),
